@@ -238,7 +238,6 @@ func (rangeConcEngine) Run(ctx *fw.Ctx, cs any) {
 		ctx.Count("rangeconc.porcupine_ok", 1)
 	case porcupine.Unknown:
 		ctx.Count("rangeconc.porcupine_unknown", 1)
-		ctx.Inconclusive("rangeconc: porcupine timed out on %d operations", len(ops))
 	case porcupine.Illegal:
 		for _, p := range []string{"C02", "C16"} {
 			ctx.Viol(p, "lease-history-not-linearizable", "range of %d addresses, %s bursts %v: the recorded replies have no one-at-a-time explanation under the lease model (address shared, changed, outside the range, or a drop/serve that no serial order allows)\n%s", c.N, c.Kind, c.Bursts, describeHistory(ops, m))
